@@ -865,7 +865,7 @@ func specLData(code uint8, l *cemi.LData) []byte {
 		w.put(b2u(t.Numbered), 1)
 		w.put(uint(t.SeqNumber), 4)
 		w.put(uint(t.Command), 4) // APCI: high two bits end the TPCI octet, low two start the next
-		w.put(uint(t.Data[0]), 6)
+		w.put(uint(t.Data[0])&63, 6) // only six bits of the first data octet exist on the wire
 		w.bytes(t.Data[1:])
 	case *cemi.ControlData:
 		w.put(0, 8)
@@ -905,8 +905,16 @@ func (r *run) c11Frame(m cemi.Message, l *cemi.LData) {
 	d := decodeCemi(want)
 	op2 := "decc " + ktext.Hex(want) + " -"
 	r.emit(op2, d.String())
-	if d.class != "ok" || ktext.Join(d.toks) != toks {
-		r.violation("layout-decode", op2, "fields "+toks+" | decoder extracted "+d.String())
+	// what the frame carries: the first data octet has six bits on the wire
+	wantToks := toks
+	if a, ok := l.Data.(*cemi.AppData); ok && len(a.Data) > 0 && a.Data[0] > 63 {
+		save := a.Data[0]
+		a.Data[0] &= 63
+		wantToks = ktext.Join(ktext.Cemi(m))
+		a.Data[0] = save
+	}
+	if d.class != "ok" || ktext.Join(d.toks) != wantToks {
+		r.violation("layout-decode", op2, "fields "+wantToks+" | decoder extracted "+d.String())
 	}
 }
 
@@ -962,6 +970,17 @@ func (r *run) c11(g *gen.G, budget int) {
 					r.c11Frame(m2, lp2)
 				}
 			}
+		}
+	}
+	// every APCI x every value of the first data octet (its two high bits do not exist on the wire:
+	// they must not leak into the APCI field)
+	for apci := 0; apci < 16; apci++ {
+		for d0 := 0; d0 < 256; d0++ {
+			l := g.LData()
+			l.Info = nil
+			l.Data = &cemi.AppData{Command: cemi.APCI(apci), Data: append([]byte{uint8(d0)}, g.Bytes(g.R.Intn(3))...)}
+			m, lp := mk(apci+d0, l)
+			r.c11Frame(m, lp)
 		}
 	}
 	// payload lengths 1..254, info lengths 0..255, corner addresses
